@@ -237,4 +237,19 @@ def rules(ctx, tier):
                         "errors other than the tolerated kind of the unlink at %s are dropped" % site_where(site), site_where(site))
     r.need(6, "unlink sites: tested + kind test + reported")
     out.append(r.finish())
+
+    # "nothing less" under concurrency rests on the intents protocol (C04): the delete happens under the protocol
+    # lock, in one hold with the apply step
+    shared = dict((x.rid, x) for x in c04.rules(ctx, tier))
+    for (src, rid, title) in (("R1", "R5", "a dereferenced blob is unlinked under the protocol lock (shared with C04-R1)"),
+                              ("R4", "R6", "apply and delete happen under one continuous hold of the protocol lock (shared with C04-R4)")):
+        x = shared.get(src)
+        if x is not None:
+            x.rid = rid
+            x.title = title
+            x.scenario = ("a concurrent commit of the content being reclaimed registers, publishes and applies in the gap; the "
+                          "stale delete then removes its blob: at quiescence a key references a missing file")
+            for o in x.obs:
+                o.scenario = x.scenario
+            out.append(x)
     return out
